@@ -25,6 +25,18 @@ import Driver.Util
       queries : space-separated extendee,number
       output  : per query the id of the extension found, or -
 
+    xflt <TAB> op <TAB> files <TAB> a <TAB> b      the filters that REBUILD image files, with the extension bits
+      files : "-" | ;-separated  <pathhex>:<I|N>:<deps>:<S|s>:<unused>:<mod>:<commit>:<payload>
+              deps = - | hex,hex,…   S = syntax unspecified   unused = - | n,n,…
+              mod = ~ | reghex/ownerhex/namehex   commit = ~ | dashless hex   payload = hash (Nat)
+      op    : iwop0 | iwop1  (ImageWithOnlyPaths / …AllowNotExist; a = paths, b = excludes)
+              noimp          (ImageWithoutImports)            bydir (ImageByDir)
+              tflt           (bufimageutil filterImageFile on the image-file level; a = ;-separated
+                              <pathhex>:<K|D>:<bodyChanged>:<hasPublic>:<newPayload>:<required hex,…>
+                              per image file: D = dropped by the closure)
+      output: ok <file> <file> …   (bydir: images separated by "|")  |  err:<tag>
+              file = pathhex:I|N:S|s:unused:mod:commit:payload:deps(.-separated hex)
+
     legacy <TAB> file             stripLegacyOptionsFromFile on one descriptor tree (BufModel.LegacyStrip)
       file : space-separated prefix tokens
              F rest nM msg.. nE fld..
@@ -125,6 +137,82 @@ def showPFile (p : PFile) : String :=
       | some m => showName m.name ++ ";" ++ showOptStr m.commit
     "ok ext=" ++ ob e.isImport ++ ";" ++ ob e.syntaxUnspecified ++ ";" ++ showNats e.unused ++ ";" ++ mi ++
       " unk=" ++ hexOfBytes p.unknown
+
+/-! ### xflt: image files with their extension bits -/
+
+def parseMod (s : String) : Option (Option ModName) :=
+  if s = "~" then some none else
+  match s.splitOn "/" with
+  | [a, b, c] => do
+    let a ← hexDecode a; let b ← hexDecode b; let c ← hexDecode c
+    pure (some { registry := s2l a, owner := s2l b, name := s2l c })
+  | _ => none
+
+def showMod : Option ModName → String
+  | none => "~"
+  | some n => enc (l2s n.registry) ++ "/" ++ enc (l2s n.owner) ++ "/" ++ enc (l2s n.name)
+
+def parseXFile (s : String) : Option File :=
+  match s.splitOn ":" with
+  | [p, i, ds, su, un, md, cm, pl] => do
+    let p ← hexDecode p
+    let deps ← parseStrs ds
+    let un ← parseNats un
+    let md ← parseMod md
+    let cm ← optStr cm
+    let pl ← pl.toNat?
+    pure { path := s2l p, isImport := i = "I", deps := deps,
+           ext := { payload := pl, syntaxUnspecified := su = "S", unusedDeps := un, modName := md, commit := cm } }
+  | _ => none
+
+def parseXFiles (s : String) : Option (List File) := (parseList s ";").mapM parseXFile
+
+def showXFile (f : File) : String :=
+  enc (l2s f.path) ++ ":" ++ (if f.isImport then "I" else "N") ++ ":" ++
+    (if f.ext.syntaxUnspecified then "S" else "s") ++ ":" ++ showNats f.ext.unusedDeps ++ ":" ++
+    showMod f.ext.modName ++ ":" ++ showOptStr f.ext.commit ++ ":" ++ toString f.ext.payload ++ ":" ++
+    (if f.deps.isEmpty then "-" else ".".intercalate (f.deps.map fun d => enc (l2s d)))
+
+def showXFiles (img : Image) : String := " ".intercalate (img.map showXFile)
+
+def showXImage : Except Err Image → String
+  | .error e => "err:" ++ e.tag
+  | .ok img => "ok " ++ showXFiles img
+
+/-- one instruction of a `tflt` line. -/
+def parseTInstr (s : String) : Option (Str × Bool × Bool × Bool × Nat × List Str) :=
+  match s.splitOn ":" with
+  | [p, k, bc, hp, pl, req] => do
+    let p ← hexDecode p
+    let pl ← pl.toNat?
+    let req ← parseStrs req
+    pure (s2l p, k = "K", bc = "1", hp = "1", pl, req)
+  | _ => none
+
+def runTflt (img : Image) (instrs : List (Str × Bool × Bool × Bool × Nat × List Str)) : Image :=
+  img.filterMap fun f =>
+    match instrs.find? (fun i => i.1 = f.path) with
+    | some (_, true, bc, hp, pl, req) => some (typeFilterFile req bc hp pl f)
+    | _ => none
+
+def handleXflt (op files a b : String) : String :=
+  match parseXFiles files with
+  | none => "bad-op"
+  | some img =>
+    if op = "iwop0" || op = "iwop1" then
+      match parseStrs a, parseStrs b with
+      | some ps, some es => showXImage (imageWithOnlyPaths img ps es (op = "iwop1"))
+      | _, _ => "bad-op"
+    else if op = "noimp" then "ok " ++ showXFiles (imageWithoutImports img)
+    else if op = "bydir" then
+      match imageByDir img with
+      | .error e => "err:" ++ e.tag
+      | .ok imgs => "ok " ++ "|".intercalate (imgs.map showXFiles)
+    else if op = "tflt" then
+      match (parseList a ";").mapM parseTInstr with
+      | some instrs => "ok " ++ showXFiles (runTflt img instrs)
+      | none => "bad-op"
+    else "bad-op"
 
 /-! ### legacy: token codec for descriptor trees -/
 namespace Legacy
@@ -314,6 +402,7 @@ end FExt
 def handle : List String → String
   | ["legacy", file] => Legacy.handleLegacy file
   | ["fext", tree, queries] => FExt.handle tree queries
+  | ["xflt", op, files, a, b] => handleXflt op files a b
   | ["iwop", allow, files, pths, excl] =>
     match parseFiles files, parseStrs pths, parseStrs excl with
     | some img, some ps, some es => showImage (imageWithOnlyPaths img ps es (allow = "1"))
